@@ -187,7 +187,7 @@ theorem mpAlloc_owes {mp mp' : MemPool} {size q : Nat} {pa : Option Nat} {ob : L
         simp only [obtainedAfter, mpDestroy, List.map_cons, List.reverse_append, List.reverse_cons,
           List.reverse_nil, List.nil_append, List.cons_append]
         simp only [mpDestroy, hsegs] at h
-        rw [← h]; rfl
+        rw [← h]
     | cons s rest =>
       simp only [hsegs] at hr
       by_cases hfit : alignUp size 8 ≤ s.size - s.used
@@ -217,7 +217,13 @@ theorem mreach_inv {mp : MemPool} {live : List Block} {ob : List (Nat × Nat)} (
     MInv mp live ∧ mpDestroy mp = ob.reverse := by
   induction h with
   | init =>
-    refine ⟨⟨by intro s hs; cases hs, by simp, by intro b hb; cases hb, by intro b hb; cases hb, by simp⟩, rfl⟩
+    refine ⟨?_, rfl⟩
+    constructor
+    · intro s hs; cases hs
+    · exact List.Pairwise.nil
+    · intro b hb; cases hb
+    · intro b hb; cases hb
+    · exact List.Pairwise.nil
   | alloc _ hpa hr ih => exact ⟨mpAlloc_inv ih.1 hpa hr, mpAlloc_owes ih.2 hr⟩
   | fail _ _ ih => exact ih
 
